@@ -125,9 +125,64 @@ pub fn exotic_open_flags(rng: &mut Rng) -> i32 {
     }
 }
 
+/// A path whose last component is `.` or `..` and whose part before it leads (back) to the root itself: `/..`, `./..`,
+/// `a/../..`, `a/b/../../.`, `<link to the root>/..` — the spellings a check of the whole string against "." and ".."
+/// does not see, and the ones on which `..` would leave the root if it were passed on to the kernel as a name.
+pub fn root_dots_path(rng: &mut Rng, spec: &TreeSpec) -> Vec<u8> {
+    let mut path: Vec<u8> = Vec::new();
+    if rng.chance(1, 3) {
+        path.push(b'/');
+    }
+    let nseg = 1 + rng.below(3);
+    for _ in 0..nseg {
+        match rng.below(5) {
+            0 => path.extend_from_slice(b"./"),
+            1 | 2 | 3 => {
+                // down into a directory of the tree and up again
+                let dirs: Vec<Vec<u8>> = spec.dirs().into_iter().filter(|d| !d.is_empty()).collect();
+                if dirs.is_empty() {
+                    path.extend_from_slice(b"./");
+                } else {
+                    let d = rng.pick(&dirs).clone();
+                    let depth = split(&d).len();
+                    path.extend_from_slice(&d);
+                    path.push(b'/');
+                    for _ in 0..depth {
+                        path.extend_from_slice(b"../");
+                    }
+                }
+            }
+            _ => {
+                // a link whose body is the root
+                let links: Vec<Vec<u8>> = spec
+                    .entries
+                    .iter()
+                    .filter(|e| matches!(&e.kind, Kind::Link(t) if t.as_slice() == b"/" || t.as_slice() == b"/."))
+                    .map(|e| e.path.clone())
+                    .collect();
+                if links.is_empty() {
+                    path.extend_from_slice(b"../");
+                } else {
+                    let l = rng.pick(&links).clone();
+                    path.extend_from_slice(&l);
+                    path.push(b'/');
+                }
+            }
+        }
+    }
+    path.extend_from_slice(*rng.pick(&[&b".."[..], b"..", b"..", b".", b"../..", b"../."]));
+    if rng.chance(1, 8) {
+        path.push(b'/');
+    }
+    path
+}
+
 pub fn create_path(rng: &mut Rng, spec: &TreeSpec) -> Vec<u8> {
     if rng.chance(1, 6) {
         return lookup_path(rng, spec);
+    }
+    if rng.chance(1, 10) {
+        return root_dots_path(rng, spec);
     }
     // parent: either a directory or a link (possibly to a directory)
     let parents: Vec<Vec<u8>> = {
